@@ -40,6 +40,7 @@ DOCS = [
                     ['interface', 'I', [['enum', 'R', ['No', 'Ok']], ['enum', 'R2', ['Q']]],
                      [['e', 'in', ['void'], [['a', ['T'], 'in']]], ['f', 'out', ['void'], []]]],
                     ['foreign', 'F', []],
+                    ['interface', 'Plain', [], [['g', 'in', ['void'], []]]],       # an interface without types of its own
                     ['ns', ['B'], [['enum', 'Deep', ['Q', 'R']]]]]],      # ... and as a namespace nested in A
      ['component', 'C', []], ['import', 'x.dzn'], ['subint', 'S', 2, 3],
      ['ns', ['Zed'], [['enum', 'InZed', ['Z']]]], ['extern', 'Yps', 'int'],
@@ -163,6 +164,8 @@ def run_history(ops):
     from dznpy.scoping import NamespaceIdsTypeError  # pylint: disable=import-outside-toplevel
     out = []
     kept = []
+    resdoc = {}
+    unequal = set()
     slots = {}
     slotdoc = {}
     returned = []   # (op index, slot, object, snapshot normal form)
@@ -257,6 +260,7 @@ def run_history(ops):
                                     f'op {i} {op}: same declarations, but the result does not compare equal to the one '
                                     f'of a fresh parser (e.g. the namespace-tree links) | history={ops}'))
                     returned.append((i, slot, res, got))
+                    resdoc[id(res)] = doc
             except Exception as exc:  # pylint: disable=broad-except
                 out.append((f'exception:{type(exc).__name__}', f'op {i} {op}: {exc!r} history={ops}'))
             # results handed out earlier must not change
@@ -264,6 +268,13 @@ def run_history(ops):
                 if j == i:
                     continue
                 now = D.unparse(obj)
+                fresh = alone(resdoc.get(id(obj)))
+                if now == snap and fresh is not None and id(obj) not in unequal and (obj != fresh or repr(obj) != repr(fresh)):
+                    # EMBEDDING: a result that has been looked at (printed, walked, used) still compares equal to a fresh parse
+                    unequal.add(id(obj))
+                    out.append(('earlier-result-no-longer-equal-to-a-fresh-parse',
+                                f'result of op {j}: same declarations, but after op {i} {op} it does not compare equal (==, repr) to '
+                                f'the result of a fresh parser any more | history={ops}'))
                 if now != snap:
                     cont, what = D.first_difference(snap, now)
                     out.append(('earlier-result-changed',
